@@ -21,6 +21,10 @@ def programs(entry, n, tag, algo="sha256"):
         return "sync", [{"op": "write_sync_with_algo", "algo": algo, "cache": "<C>", "key": KEY, "data": data}]
     if entry == "write_hash_sync":
         return "sync", [{"op": "write_hash_sync_with_algo", "algo": algo, "cache": "<C>", "data": data}]
+    if entry in ("sw_declared_flush", "aw_declared_hash_flush"):
+        # a flush in the middle of the stream (legal at any point): declared size met exactly
+        side_, prog_ = programs("sw_declared" if entry.startswith("sw_") else "aw_declared_hash", n, tag, algo)
+        return side_, prog_[:2] + [{"op": "w_flush", "h": {"ref": 0}}] + prog_[2:]
     if entry in ("sw_declared", "sw_plain", "sw_declared_hash", "sw_declared_short", "sw_declared_over"):
         opts = {"algorithm": algo}
         if entry != "sw_plain":
@@ -74,6 +78,10 @@ def scenarios(tier):
                     if quick and (init == "warm" or (e in ("write_hash",) and init != "cold")):
                         continue
                     out.append({"entry": e, "flavour": fl, "n": n, "init": init})
+    for n in ((5, 300) if quick else (5, 300, 4097)):
+        out.append({"entry": "sw_declared_flush", "flavour": "sync", "n": n, "init": "cold"})
+        for fl in (("astd",) if quick else ("astd", "tok")):
+            out.append({"entry": "aw_declared_hash_flush", "flavour": fl, "n": n, "init": "cold"})
     for n in ((5, 300) if quick else (5, 300, 4097, ref.MIB - 9)):
         for init in ("cold", "present"):
             for e in ("sw_declared_short", "sw_declared_over"):
